@@ -79,7 +79,7 @@ let components : (string * (string list * (unit -> z -> tok list -> tok list))) 
   ("tree", (["mk"; "clone"; "copy"; "assign"; "move"; "massign"; "setinner"; "setinnerref"; "release"; "div"; "del"; "tag";
              "pkwrap"; "pkown"; "pkcopy"; "pkmove"; "pkrel"; "pkdiv"], mk ts0 tree_step));
   ("addr", (["v4p"; "v4s"; "v4cmp"; "v4ops"; "v4rng"; "v4it"; "hwp"; "hws"; "bufcmp"; "bufrng"; "bufit"], mk () addr_step));
-  ("rt", (["new"; "parse"; "set"; "opt"], mk None rt_step));
+  ("rt", (["new"; "parse"; "set"; "opt"; "noinner"], mk None rt_step));
   ("dns", (["new"; "parse"; "addq"; "adda"; "addn"; "addr"], mk None dns_step));
   ("sum", (["sum"], mk () sum_step));
   ("tcpo", (["tcpo"], mk () tcpo_step));
